@@ -245,6 +245,9 @@ pub fn profile_for(id: &str, rng: &mut Rng) -> Profile {
             p.w_reopen = *rng.pick(&[0, 0, 4]);
             p.w_check = 0;
             p.w_ddl = 10;
+            // a third of the crash histories use the richer DDL: CREATE UNIQUE INDEX on existing tables,
+            // ALTER ... SET / DROP NOT NULL, reuse of dropped names
+            p.ddl_rich = rng.chance(33);
             p.max_sessions = 2;
             // rows with overflow chains are not generated here: open findings F7 / D6d
             p.read_burst = if rng.chance(12) { rng.range(240, 420) as u32 } else { 0 };
@@ -272,9 +275,6 @@ pub fn profile_for(id: &str, rng: &mut Rng) -> Profile {
             if id == "C08" {
                 p.guards.push("crash_after_recovery_truncated_log".into()); // F6 (fault-space guard)
             }
-            p.guards.push("drop_table_before_crash".into()); // D6c
-            p.guards.push("drop_only_after_checkpoint".into()); // D6c, narrowed
-            p.guards.push("crash_inside_drop_table".into()); // D6c (fault-space guard)
             p.guards.push("crash_inside_checkpoint_page_writes".into()); // D22b (fault-space guard)
             if id == "C02" {
                 p.p_rollback = rng.range(40, 70) as u32;
